@@ -13,6 +13,9 @@ CLAIMS = {
  'C13': ('the three sample formats convert to bit-identical internal values for every int16, the three encoder entry points hand identical PCM/depth/downmix to the native encoder, and the three decoder exit points round/saturate one common float output as specified; the codec between them is stubbed', '2/C13'),
  'C20': ('DTX decision logic: generalised counter (inductive invariant, exact characterisation of DTX frames, run bound) and the SILK VAD/DTX machine for any activity inputs; signal-to-activity mapping is not claimed', '2/C20'),
  'C16': ('leaf parsers of the extension format (skip_extension, skip_extension_payload) are memory-safe and advance exactly as specified on any buffer up to 300 bytes; the iterator and generator above them could not be decided and are not claimed', '2/C16'),
+ 'C07': ('one repacketizer cat from any valid state (inductive invariant), out_range from any constructed state re-parsed by the real parser and compared byte for byte, pad/unpad exactness, canonicity and idempotence, all over small frame counts and payloads with every length/range/maxlen symbolic', '2/C07'),
+ 'C11': ('ctl lattice: per request, any int32 value on any (havocked) encoder/decoder state: accepted iff legal, stored and read back, rejection with the documented error leaves every byte unchanged, unknown requests unimplemented, null getters rejected; honouring in the bitstream is not claimed here', '2/C11'),
+ 'C02': ('symbol-layer lock-step: real SILK index encoder vs real decoder over a tape coder for every legal index value (per fs/sub-frame/conditional-coding case), and TOC synthesis read back by the inspection helpers; the frame coders and the encode glue are not claimed', '2/C02'),
  'C08': ('range coder round trips, accounting invariant (inductive) and termination lemma decided over all parameters within small buffer/sequence bounds', '2/C08'),
 }
 NA = {
